@@ -16,6 +16,8 @@ RESERVED = {'short', 'int', 'long', 'float', 'double', 'char', 'typedef', 'struc
 # characters the property names explicitly: blank, tab, '#', ';', braces, plus a few others
 ALPHA = 'abXY09 \t#;{}\',.:=\\-_/+*()[]<>|@!?~^&%$'
 ident = st.from_regex(r'[A-Za-z][A-Za-z0-9_]{0,7}', fullmatch=True).filter(lambda s: s.lower() not in RESERVED)
+# header keywords: any identifier, also the words the parser uses for its own bookkeeping (a pair may be called struct or enum)
+keyword = st.one_of(ident, ident, ident, st.sampled_from(['struct', 'enum', 'STRUCT', 'Enum', 'symbols']))
 DOUBLE_BRACE = re.compile(r'\{\s*\{\s*\}\s*\}')
 
 INT_RANGE = {'i2': (-2 ** 15, 2 ** 15 - 1), 'i4': (-2 ** 31, 2 ** 31 - 1), 'i8': (-2 ** 63, 2 ** 63 - 1)}
@@ -72,7 +74,7 @@ def cell_strategy(col):
 @st.composite
 def column_spec(draw, name, kinds=('i2', 'i4', 'i8', 'f4', 'f8', 'S', 'S', 'E')):
     kind = draw(st.sampled_from(kinds))
-    col = dict(name=name, kind=kind, width=0, alen=draw(st.sampled_from([0, 0, 0, 1, 2, 3])))
+    col = dict(name=name, kind=kind, width=0, alen=draw(st.sampled_from([0, 0, 0, 1, 2, 3, 0, 10, 12])))
     if kind in ('S', 'U'):
         col['width'] = draw(st.integers(1, 10))
     if kind == 'E':
